@@ -105,6 +105,9 @@ func (g *flowGen) cond() string {
 		} else if tp.Chance(1, 8) {
 			r = "this.f0"
 		}
+		if tp.Chance(1, 3) { // the same comparison written constant-first
+			return fmt.Sprintf("%s %s %s", r, ops[tp.Pick(4, 3, 2, 2, 2, 2)], l)
+		}
 		return fmt.Sprintf("%s %s %s", l, ops[tp.Pick(4, 3, 2, 2, 2, 2)], r)
 	}
 	switch tp.Pick(6, 1, 1) {
@@ -143,6 +146,9 @@ func (g *flowGen) stmt(depth int) []string {
 	}
 	if kind == 4 && len(g.vars) < 2 {
 		kind = 2
+	}
+	if kind == 4 && tp.Chance(2, 5) {
+		return g.trueLoop(depth)
 	}
 	switch kind {
 	case 0: // plain assignment
@@ -253,6 +259,19 @@ func (g *flowGen) stmt(depth int) []string {
 		g.vars = save
 		step := []string{fmt.Sprintf("%s += 1", v), fmt.Sprintf("%s += 2", v), fmt.Sprintf("%s = %s + 1", v, v)}[tp.Pick(5, 1, 2)]
 		body = append(body, step)
+		if tp.Chance(1, 4) && len(others) >= 2 {
+			// the body's last statement is itself a loop that is only left by
+			// a break: the implicit continue of this loop comes right after it
+			g.feats["body_ends_in_while_true"] = true
+			g.vars = others
+			if tp.Bool() {
+				body = append(body, fmt.Sprintf("%s = %d", others[0], g.k()+tp.Draw(30)))
+			}
+			g.labels++
+			il := fmt.Sprintf("l%d", g.labels)
+			body = append(body, fmt.Sprintf("while.%s true {", il), "\twhile true {", "\t\tbreak."+il, "\t}", "}."+il)
+			g.vars = save
+		}
 		out := append(head, ind(body)...)
 		out = append(out, "}."+lbl)
 		if entryGuard != "" {
@@ -469,4 +488,130 @@ func generateAxiomProgram(tp *sim.Tape, repo string) string {
 	sb.WriteString("}\n")
 	lastGenMech = map[string]string{"m0": fmt.Sprintf("axiom %q/%s", ax, variant)}
 	return sb.String()
+}
+
+// trueLoop emits a "while true" loop that is left only by break statements:
+// directly, or (a deep break) from inside a nested loop. Such a loop is often
+// the last statement of its block, which is where "does this block terminate"
+// matters to the checker.
+func (g *flowGen) trueLoop(depth int) []string {
+	tp := g.tp
+	v := g.v()
+	g.labels++
+	outer := fmt.Sprintf("l%d", g.labels)
+	bound := 2 + tp.Draw(9)
+	g.feats["while_true"] = true
+	head := []string{fmt.Sprintf("while.%s true,", outer)}
+	inv := ""
+	if tp.Chance(1, 2) {
+		g.feats["inv"] = true
+		inv = fmt.Sprintf("%s <= %d", v, bound)
+		head = append(head, "\t\tinv "+inv+",")
+	}
+	head = append(head, "{")
+	save := g.vars
+	var others []string
+	for _, o := range g.vars {
+		if o != v {
+			others = append(others, o)
+		}
+	}
+	g.vars = others
+	var body []string
+	exit := []string{fmt.Sprintf("if %s >= %d {", v, bound), "\tbreak." + outer, "}"}
+	switch tp.Pick(2, 2, 3) {
+	case 2: // the only exit is a break out of a nested "while true" loop, the
+		// body's last statement: the body never falls through to the
+		// implicit continue
+		g.feats["deep_break_from_while_true"] = true
+		body = append(body, g.block(depth+1, tp.Draw(2))...)
+		if tp.Chance(1, 3) {
+			// a near miss: would falsify the invariant if control continued
+			body = append(body, fmt.Sprintf("%s = %d", v, bound+1+tp.Draw(3)))
+		}
+		if tp.Bool() {
+			body = append(body, "while true {", "\tbreak."+outer, "}")
+		} else {
+			g.labels++
+			inner := fmt.Sprintf("l%d", g.labels)
+			body = append(body, fmt.Sprintf("while.%s true {", inner),
+				fmt.Sprintf("\tif %s >= %d {", v, bound), "\t\tbreak."+outer, "\t}",
+				fmt.Sprintf("\t%s ~mod+= 1", v), "}."+inner)
+		}
+		g.vars = save
+		out := append(head, ind(body)...)
+		out = append(out, "}."+outer)
+		if inv != "" && tp.Chance(4, 5) {
+			out = append(append([]string{"if " + inv + " {"}, ind(out)...), "}")
+		}
+		if tp.Chance(2, 3) {
+			g.feats["loop_ends_branch"] = true
+			pre := g.block(depth+1, tp.Draw(2))
+			br := append(append([]string{fmt.Sprintf("if %s {", g.cond())}, ind(append(pre, out...))...), "}")
+			if tp.Chance(1, 3) {
+				br = append(br[:len(br)-1], "} else {")
+				br = append(br, ind(g.block(depth+1, 1+tp.Draw(2)))...)
+				br = append(br, "}")
+			}
+			return br
+		}
+		return out
+	case 0: // direct break
+		body = append(body, exit...)
+		body = append(body, g.block(depth+1, tp.Draw(2))...)
+	case 1: // the only exit is a break out of a nested loop
+		g.feats["deep_break"] = true
+		g.labels++
+		inner := fmt.Sprintf("l%d", g.labels)
+		w := v
+		if len(others) > 0 && tp.Bool() {
+			w = others[tp.Draw(len(others))]
+		}
+		ib := 1 + tp.Draw(5)
+		in := []string{fmt.Sprintf("while.%s %s < %d,", inner, w, ib)}
+		if inv != "" {
+			in = append(in, "\t\tinv "+inv+",")
+		}
+		in = append(in, "{")
+		var ibody []string
+		ibody = append(ibody, fmt.Sprintf("if %s >= %d {", v, bound), "\tbreak."+outer, "}")
+		if w != v {
+			ibody = append(ibody, fmt.Sprintf("%s += 1", w))
+		} else {
+			ibody = append(ibody, fmt.Sprintf("%s += 1", v))
+		}
+		in = append(in, ind(ibody)...)
+		in = append(in, "}."+inner)
+		body = append(body, in...)
+		if w != v || tp.Bool() {
+			// without this the outer loop could spin forever (the step
+			// budget would end the run: no verdict, just lost reach)
+			body = append(body, fmt.Sprintf("if %s >= %d {", v, bound), "\tbreak."+outer, "}")
+		}
+	}
+	g.vars = save
+	if tp.Chance(1, 3) {
+		// breaks the invariant unless the checker re-proves it: a near miss
+		body = append(body, fmt.Sprintf("%s = %d", v, bound+1+tp.Draw(3)))
+	} else {
+		body = append(body, fmt.Sprintf("%s += 1", v))
+	}
+	out := append(head, ind(body)...)
+	out = append(out, "}."+outer)
+	if inv != "" && tp.Chance(4, 5) {
+		out = append(append([]string{"if " + inv + " {"}, ind(out)...), "}")
+	}
+	// often the last statement of an if-branch
+	if tp.Chance(1, 2) {
+		g.feats["loop_ends_branch"] = true
+		pre := g.block(depth+1, tp.Draw(2))
+		br := append(append([]string{fmt.Sprintf("if %s {", g.cond())}, ind(append(pre, out...))...), "}")
+		if tp.Bool() {
+			br = append(br[:len(br)-1], "} else {")
+			br = append(br, ind(g.block(depth+1, 1+tp.Draw(2)))...)
+			br = append(br, "}")
+		}
+		return br
+	}
+	return out
 }
